@@ -44,7 +44,7 @@ def _limit_atom(param: str, k: int) -> Poly:
     return Normalizer().norm(ast.parse(f"{param}[{k}]", mode="eval").body)
 
 
-def _axis_exprs(base_axes: "FuncInfo"):
+def _axis_exprs(base_axes):
     """(offset expr, sampling expr) per base axis from the list returned by base_axes_metadata."""
     rets = [n for n in walk_no_nested(base_axes.node) if isinstance(n, ast.Return) and n.value is not None]
     if len(rets) != 1:
